@@ -300,13 +300,13 @@ class BuiltinMixin:
             return ListV([])
         value = args[0]
         if isinstance(value, SeqV):
-            return SeqV(value.arr, value.n, value.et)
+            return value.clone()
         if isinstance(value, GenV):
             return self.gen_to_seq(value, line)
         if isinstance(value, EnumV):
             raise Unsupported("list(enumerate(symbolic))")
         if isinstance(value, DictV) and value.entries is None:
-            return SeqV(value.keys.arr, value.keys.n, value.keys.et)
+            return value.keys.clone()
         return ListV(self.iterate_concrete(value, line))
 
     def b_tuple(self, args, kwargs, line):
@@ -323,7 +323,7 @@ class BuiltinMixin:
         if isinstance(value, SeqV):
             i = z3.Int(self.ctx.fresh_name("q"))
             x = z3.Const(self.ctx.fresh_name("x"), value.et.sort)
-            arr = z3.Lambda([x], z3.Exists([i], z3.And(i >= 0, i < value.n, z3.Select(value.arr, i) == x)))
+            arr = z3.Lambda([x], z3.Exists([i], z3.And(i >= 0, i < value.n, value.sel(i) == x)))
             return SetV(arr=arr, et=value.et)
         if isinstance(value, SetV):
             return SetV(items=list(value.items) if value.items is not None else None, arr=value.arr, et=value.et)
@@ -511,7 +511,7 @@ class BuiltinMixin:
         i, j = z3.Int(ctx.fresh_name("q")), z3.Int(ctx.fresh_name("q"))
         rng_i = z3.And(i >= 0, i < source.n)
         ctx.assume(z3.ForAll([i], z3.Implies(rng_i, z3.And(perm(i) >= 0, perm(i) < source.n, inv(perm(i)) == i,
-                                                          z3.Select(arr, i) == z3.Select(source.arr, perm(i))))))
+                                                          z3.Select(arr, i) == source.sel(perm(i))))))
         ctx.assume(z3.ForAll([i], z3.Implies(rng_i, z3.And(inv(i) >= 0, inv(i) < source.n, perm(inv(i)) == i))))
 
         def key_term(index: Any) -> Any:
@@ -676,13 +676,13 @@ class BuiltinMixin:
         return NONE
 
     def m_seq_copy(self, obj, args, kwargs, line):
-        return SeqV(obj.arr, obj.n, obj.et)
+        return obj.clone()
 
     def m_seq_pop(self, obj, args, kwargs, line):
         if args:
             raise Unsupported("pop(i) on symbolic sequence")
         self.check_safe(obj.n > 0, "IndexError", line)
-        value = self.unpack(z3.Select(obj.arr, z3.simplify(obj.n - 1)), obj.et)
+        value = self.unpack(obj.sel(z3.simplify(obj.n - 1)), obj.et)
         obj.n = z3.simplify(obj.n - 1)
         return value
 
@@ -694,7 +694,7 @@ class BuiltinMixin:
             return NONE
         if isinstance(other, SeqV):
             joined = self.seq_concat(obj, other)
-            obj.arr, obj.n = joined.arr, joined.n
+            obj.arr, obj.n, obj.off = joined.arr, joined.n, joined.off
             return NONE
         raise Unsupported("extend of symbolic sequence")
 
@@ -816,7 +816,7 @@ class BuiltinMixin:
 
     def m_dict_copy(self, obj, args, kwargs, line):
         if obj.entries is None:
-            return DictV(keys=SeqV(obj.keys.arr, obj.keys.n, obj.keys.et), vals=obj.vals, vt=obj.vt)
+            return DictV(keys=obj.keys.clone(), vals=obj.vals, vt=obj.vt)
         return DictV(entries=list(obj.entries), default_factory=obj.default_factory)
 
     def m_dict_pop(self, obj, args, kwargs, line):
